@@ -107,6 +107,7 @@ pub fn blank(payments: Vec<PaymentSpec>, htlcs: Vec<HtlcSpec>, seed: u64) -> Sce
         crash_at: vec![],
         freeze: None,
         hold: vec![],
+        freeze_polls: false,
     }
 }
 
@@ -277,6 +278,11 @@ pub fn run(tier: Tier, seed: u64) -> i32 {
     s.regress::<Meta13, _>("world-metamorphic", meta_case);
     s.search("world-nontrampoline-only", "world", tier.pick(1200, 30000), c13_strategy, case);
     s.search("world-metamorphic", "world-metamorphic", tier.pick(300, 10000), meta_strategy, meta_case);
+    // non-trampoline HTLCs arriving while real payments have RPCs outstanding (generic scheduled scenarios):
+    // they must still be answered in their delivery instant
+    let mixed = Profile { w_nontramp: 30, w_reject: 3, w_hash_mismatch: 8, max_payments: 2, max_parts: 4, ..Profile::default() };
+    let mixed_case = world_case("C13", |st| st.nontramp_answered > 0 && st.pays > 0, |st| if st.nontramp_answered > 0 { vec!["non_trampoline_beside_payments".into()] } else { vec![] });
+    s.search("world-mixed-schedules", "world-mixed", tier.pick(400, 8000), move || scenario_strategy(mixed.clone()), &mixed_case);
     if tier == Tier::Thorough {
         crate::e2e::c13_e2e(&mut s);
     }
@@ -287,6 +293,7 @@ pub fn replay(engine: &str, case_v: serde_json::Value) -> Option<CaseReport> {
     match engine {
         "world" => Some(case(&serde_json::from_value(case_v).ok()?)),
         "world-metamorphic" => Some(meta_case(&serde_json::from_value(case_v).ok()?)),
+        "world-mixed" => replay_world("C13", case_v),
         _ => None,
     }
 }
